@@ -99,6 +99,11 @@ CLAIMED = {
    text="TLC explores 2-3 threads x 1-2 cells x programs over all 12 assignment operators (incl. failing operands), `*c` and rendering (305 915 [4.7 M] states); two named alternative behaviours (nested read guards = the repaired deadlock, split read/write guards = lost updates) must FAIL in the model, so the properties are not vacuous. Every program tuple is run on real threads sharing a Code, a closure and a Function (10 023 [149 210] runs) and its outcome must be in the set the atomic reference allows; every serial order is forced through gates at the lock points (6 226 [99 852]); 68 [680] stress histories (increments, additive, mixed, two cells) are accepted by the trace specification (write chain by sequence number, new = op(old, rhs), each call returns its own write) and by the hook-free linearization search; runs that share no cell equal the sequential result; a watchdog turns a hang into a reported deadlock.",
    design_ref="§3.7, §6 C16",
    note="real thread schedules beyond the forced serial orders are sampled, not enumerated; watchdog >= 20 s is the only timing-based judgement; values kept small so TLC's 32-bit integers suffice"),
+ "C18": dict(
+   technique="TLA+ specifications Stdlib.tla (export table of docs/stdlib.md as type records; reference definitions of the pure helpers on limbs / scalar-value sequences; judgement = Types!Member + documented result) and Fs.tla (a state machine over a file tree for the nine std.fs calls, with the theorem that a failing call leaves the tree unchanged) model-checked by TLC; boundary cases and fs behaviours replayed through generated programs AND the host API in a scratch directory; seeded random calls and random fs walks validated by Trace_Stdlib.tla / Trace_Fs.tla",
+   text="TLC checks internal laws of the reference definitions (UTF-8 encode/decode round trip, count_ones + count_zeros = 64, involutions, ilog bounds, split/join, ...) and emits for each of the 90 exports boundary argument vectors of its declared parameter types (2 696 cases x 2 routes) with the predicted result (pure helpers) or the demand 'member of the declared result type'; MC_Fs enumerates all call sequences of length <= 2 [3] from 7 [10] initial trees incl. unwritable ones (22 351 [1.79 M] states) with expected success/failure and tree after every call, replayed in a real scratch directory (unwritable trees as user nobody). 5 852 [195 066] seeded random calls and 300 [8 000] random fs walks recorded from the implementation are re-judged by TLC. The declared types in the `std` struct are compared with the specification's table.",
+   design_ref="§3.7, §6 C18",
+   note="IEEE results of float math functions, to_string/print text, non-ASCII case mapping and OS error codes are checked for declared type / no panic / route equality only; 11 heading inconsistencies of docs/stdlib.md are listed as DocReadings in the specification"),
 }
 
 NOT_YET = {}
